@@ -223,3 +223,84 @@ func (m *runnerModel) ok(c *Ctx, rule string) bool {
 	}
 	return true
 }
+
+// ctorInit describes how the constructor initialises the runner it returns: the literal's elements, overridden or
+// completed by top-level stores `r.f = e` on the local that is returned (a runner built step by step).
+type ctorInit struct {
+	obj    types.Object         // the local holding the runner under construction (nil: literal returned directly)
+	fields map[string]ast.Expr  // field name -> initial value expression
+	pos    token.Pos
+}
+
+var ctorInitCache *ctorInit
+var ctorInitFor *runnerModel
+
+func (m *runnerModel) ctorInit(w *World) *ctorInit {
+	if ctorInitCache != nil && ctorInitFor == m {
+		return ctorInitCache
+	}
+	ci := &ctorInit{fields: map[string]ast.Expr{}, pos: m.ctor.Decl.Pos()}
+	ctorInitCache, ctorInitFor = ci, m
+	info := m.pkg.TypesInfo
+	// the returned local
+	walkNoLit(m.ctor.Body, func(n ast.Node) bool {
+		r, ok := n.(*ast.ReturnStmt)
+		if !ok || len(r.Results) == 0 {
+			return true
+		}
+		if id := identOf(r.Results[0]); id != nil {
+			if v, ok := info.Uses[id].(*types.Var); ok {
+				if fields, ok := w.builtFields(m.ctor, v); ok {
+					ci.obj, ci.fields = v, fields
+				}
+			}
+		}
+		return true
+	})
+	if ci.obj == nil {
+		walkNoLit(m.ctor.Body, func(n ast.Node) bool {
+			if cl, ok := n.(*ast.CompositeLit); ok {
+				if tv, ok := info.Types[cl]; ok && tv.Type == types.Type(m.T) {
+					ci.pos = cl.Pos()
+					for _, el := range cl.Elts {
+						if kv, ok := el.(*ast.KeyValueExpr); ok {
+							if id, ok := kv.Key.(*ast.Ident); ok {
+								ci.fields[id.Name] = kv.Value
+							}
+						}
+					}
+				}
+			}
+			return true
+		})
+	}
+	return ci
+}
+
+// isInitStore: the assignment is a top-level statement of the constructor storing into a field of the runner under
+// construction (initialisation, not a reassignment).
+func (ci *ctorInit) isInitStore(m *runnerModel, as *ast.AssignStmt) bool {
+	if ci.obj == nil {
+		return false
+	}
+	top := false
+	for _, st := range m.ctor.Body.List {
+		if st == ast.Stmt(as) {
+			top = true
+		}
+	}
+	if !top {
+		return false
+	}
+	for _, l := range as.Lhs {
+		se, ok := unparen(l).(*ast.SelectorExpr)
+		if !ok {
+			return false
+		}
+		id := identOf(se.X)
+		if id == nil || m.pkg.TypesInfo.Uses[id] != ci.obj {
+			return false
+		}
+	}
+	return true
+}
